@@ -563,6 +563,34 @@ func (x *Exec) trCall(env *Env, e ECall) Val {
 		}
 		t := x.parseType(s.V, env.pkg)
 		return Val{T: IfPtr(v.T), Ty: t}
+	case "closurefn", "fnid", "closurefv":
+		// ghost description of func values built by MakeClosure
+		str := func(a Expr) string {
+			s, ok := a.(EStr)
+			if !ok {
+				env.fail("%s: function name must be a string literal", e.Fn)
+			}
+			return s.V
+		}
+		switch e.Fn {
+		case "fnid":
+			return Val{T: Int(int64(x.P.typeID(closureKey{str(e.Args[0])}))), Ty: tyInt}
+		case "closurefn":
+			v := x.tr(env, e.Args[0])
+			return Val{T: App(x.declareFun("closfn", []Sort{SInt}, SInt), SInt, v.T), Ty: tyInt}
+		default:
+			v := x.tr(env, e.Args[0])
+			fn := x.P.Funcs[str(e.Args[1])]
+			idxE, ok := e.Args[2].(EInt)
+			idx := 0
+			if ok {
+				fmt.Sscan(idxE.V, &idx)
+			}
+			if fn == nil || !ok || idx >= len(fn.FreeVars) {
+				env.fail("closurefv(f, \"function\", i): unknown function or index")
+			}
+			return Val{T: App(x.declareFun("closfv", []Sort{SInt, SInt}, SInt), SInt, v.T, Int(int64(idx))), Ty: fn.FreeVars[idx].Type()}
+		}
 	case "hdr":
 		v := x.tr(env, e.Args[0])
 		f := x.declareFun("whdr", []Sort{SIface}, SInt)
